@@ -163,3 +163,118 @@ pub fn check_fault(rec: &J) -> Verdict {
         }
     }
 }
+
+/// Family `e2e`: a rendered program goes through the real front end, interpreter and linter; the run must be the
+/// model's run (bytes, reads, outcome, environment after every statement, statement lines = physical lines) and the
+/// lint report the model's report.
+pub fn check_e2e(rec: &J) -> Verdict {
+    use crate::exec::{self as ex, Ev};
+    use crate::fam::exec::{event_matches, run_cfg};
+    let text = concretise_src(rec["text"].as_str().unwrap());
+    let back = back_map(rec);
+    let prog = match catch_unwind(AssertUnwindSafe(|| rrss::frontend::parser::parse(&text).map_err(|e| e.to_string()))) {
+        Err(p) => return Verdict::viol(format!("parser panicked: {}", panic_msg(p)), J::Null),
+        Ok(Err(e)) => return Verdict::viol(format!("a rendering of a valid program is rejected: {}", e), J::Null),
+        Ok(Ok(p)) => p,
+    };
+    let st = rec["st"].as_str().unwrap();
+    if st == "fuel" {
+        return Verdict::skip("model ran out of fuel");
+    }
+    let obs = ex::run(&prog, &run_cfg(rec));
+    if obs.is_panic() {
+        return Verdict::viol(format!("interpreter {}", obs.outcome_str()), J::Null);
+    }
+    let multiline_noise = rec["text"].as_str().unwrap().contains("(a\nb)");
+    if st != "unspec" {
+        if obs.is_ok() != (st == "ok") {
+            return Verdict::viol(format!("outcome {} where the model ends with `{}`", obs.outcome_str(), st), json!({"out": obs.out_text()}));
+        }
+        let out = crate::jv::abstractise(&obs.out_text());
+        if out != rec["out"].as_str().unwrap() {
+            return Verdict::viol("bytes written differ from the model".into(), json!({"out": out}));
+        }
+        let reads = obs.log.iter().filter(|e| matches!(e, Ev::Read(_) | Ev::ReadFail)).count() as u64;
+        if reads != rec["rd"].as_u64().unwrap() {
+            return Verdict::viol(format!("{} read calls issued, model {}", reads, rec["rd"]), J::Null);
+        }
+        let evs: Vec<J> = obs.log.iter().filter_map(|e| match e { Ev::Stmt(s) => Some(ex::stmt_json(s)), _ => None }).collect();
+        let exp = rec["evs"].as_array().unwrap();
+        if exp.len() != evs.len() {
+            return Verdict::viol(format!("{} statements completed, model completes {}", evs.len(), exp.len()), J::Null);
+        }
+        for (i, (e, o)) in exp.iter().zip(&evs).enumerate() {
+            let mut o2 = o.clone();
+            for scope in o2["scopes"].as_array_mut().unwrap() {
+                for entry in scope.as_array_mut().unwrap() {
+                    if let Some(abs) = back.get(&entry["key"].to_string()) {
+                        entry["key"] = json!(["simple", abs]);
+                    }
+                }
+            }
+            if !o2["last"].is_null() {
+                if let Some(abs) = back.get(&o2["last"].to_string()) {
+                    o2["last"] = json!(["simple", abs]);
+                }
+            }
+            let mut e2 = e.clone();
+            if multiline_noise {
+                e2["line"] = o2["line"].clone();
+            }
+            if let Err(m) = event_matches(&e2, &o2) {
+                return Verdict::viol(format!("statement event {}: {}", i + 1, m), json!({"event": o}));
+            }
+        }
+    }
+    // lint
+    let diags = match catch_unwind(AssertUnwindSafe(|| rrss::linter::standard_linter().run(&prog).diags)) {
+        Ok(d) => d,
+        Err(p) => return Verdict::viol(format!("linter panicked: {}", panic_msg(p)), J::Null),
+    };
+    // rendered spelling (case-folded) -> abstract name
+    let mut by_text = HashMap::new();
+    for (abs, v) in &naming_of(rec).map {
+        for n in v {
+            use rrss::linter::render::Render;
+            by_text.insert(n.render().to_lowercase(), abs.clone());
+        }
+    }
+    // Under a non-canonical tape the mentions of one name are spelled in different letter cases; whether two such
+    // spellings are "the same name" for the repeated-identifier pass is not settled by C19 (the pass compares
+    // spellings), so that pass is compared on canonical renderings only.
+    let canonical = rec["tape"].as_array().map_or(true, |t| t.is_empty());
+    let keep = |d: &J| canonical || d["pass"] != "repeat";
+    let obs_diags: Vec<J> = diags.iter().map(crate::fam::lint::diag_json).filter(|d| keep(d)).collect();
+    let exp_all = rec["report"].as_array().unwrap();
+    let exp: Vec<&J> = exp_all.iter().filter(|d| keep(d)).collect();
+    let fail = |m: String| Verdict::viol(m, json!({"report": obs_diags.clone()}));
+    if exp.len() != obs_diags.len() {
+        return fail(format!("lint: {} diagnostics, model {}", obs_diags.len(), exp.len()));
+    }
+    for (i, (e, o)) in exp.iter().copied().zip(&obs_diags).enumerate() {
+        let ot = o["target"].as_str().unwrap_or("?");
+        let abs = by_text.get(&concretise_src(ot).to_lowercase()).cloned().unwrap_or_else(|| ot.to_string());
+        if e["pass"] != o["pass"] || (!multiline_noise && e["line"] != o["line"]) || e["target"].as_str() != Some(abs.as_str()) {
+            return fail(format!("lint diagnostic {}: {} where the model reports {}", i + 1, o, e));
+        }
+        if e["pass"] == "boring" && e["det"] == true {
+            if e["value"] != o["value"] {
+                return fail(format!("lint diagnostic {}: value {} (model {})", i + 1, o["value"], e["value"]));
+            }
+            // the suggestion is the model's with the target spelled as in the source
+            let want: Vec<String> = e["sugg"].as_array().unwrap().iter().map(|s| {
+                let s = s.as_str().unwrap();
+                let et = e["target"].as_str().unwrap();
+                if let Some(rest) = s.strip_prefix(&format!("Rock {} like ", et)) {
+                    format!("Rock {} like {}", ot, rest)
+                } else {
+                    format!("{}{}", ot, &s[et.len()..])
+                }
+            }).collect();
+            if json!(want) != o["sugg"] {
+                return fail(format!("lint diagnostic {}: suggestions {} (model {:?})", i + 1, o["sugg"], want));
+            }
+        }
+    }
+    Verdict::ok(true)
+}
